@@ -1,4 +1,5 @@
 import Judge.Check
+import OVM.Spec.Fan
 /-
   Judge: property oracles evaluated on the implementation's own states (the decidable forms
   of the S-level statements), and the query / lookup comparison.
@@ -221,5 +222,21 @@ def checkTwin (o : Obs) : List Finding :=
     (if k.vBU then f "outHes" (showLL (k.outHes.map sortL)) (showLL (t.outHes.map sortL)) else []) ++
     (if k.eBU then f "incHfs" (showLL (k.incHfs.map sortL)) (showLL (t.incHfs.map sortL)) else []) ++
     (if k.fBU then f "incCell" (toString (k.incCell.map showO)) (toString (t.incCell.map showO)) else [])
+
+/-- C09: around every edge that currently is a single fan the cached halffaces are in rotational
+    order (closed fan: up to rotation; open chain: exactly, boundary halfface last), and the
+    opposite halfedge holds the mirrored reverse -/
+def checkFans (k : Kernel) : List Finding :=
+  if !(k.eBU && k.fBU) then [] else
+  (List.range k.nE).flatMap (fun e =>
+    if k.eDeleted e then [] else
+    let he := 2 * e
+    match k.sFanOrder he with
+    | none => []
+    | some (ord, cyc) =>
+      let L := k.hfsOf he
+      let okOrder := if cyc then isRotation ord L else ord == L
+      (if okOrder then [] else [Finding.oracle "C09" s!"edge {e}: halffaces of halfedge {he} are {showL L}, rotational order is {showL ord} (closed fan: {cyc})"]) ++
+      (if k.hfsOf (he + 1) == (L.reverse.map opp) then [] else [Finding.oracle "C09" s!"edge {e}: opposite halfedge holds {showL (k.hfsOf (he + 1))}, mirrored reverse is {showL (L.reverse.map opp)}"]))
 
 end Judge
